@@ -17,11 +17,15 @@ expressions and whole propositions only.
 from lv import syntaxgen
 from lv.syntaxgen import Tok
 
-# `P(x) order_by((x), y)` is rejected by both parsers although `order_by(x, y)` and
-# `order_by((x))` are accepted (GrabDenotation refuses an argument text starting with
-# '(' after the outer parentheses have been stripped).  Reported as a finding of C15;
-# while it is open the first of several denotation arguments is not parenthesised.
-AVOID_DEN_PAREN = True
+# FINDING denotation_parenthesised_argument (C15, both parsers).
+# `P(x) order_by((x), y)` is rejected by both parsers although `order_by(x, y)`,
+# `order_by((x))` and `order_by(x, (y))` are accepted (GrabDenotation refuses an argument
+# text starting with '(' once the outer parentheses have been stripped; the test is
+# meant for denotations written in the wrong order).  While the exclusion is on, the
+# first of several denotation arguments is not parenthesised.
+EXCLUDE_DEN_PAREN = syntaxgen.excluded('DEN_PAREN')
+RISK_DEN = 'denotation_parenthesised_argument'
+RISK_AGG = syntaxgen.RISK_AGG
 
 WS = [' ', ' ', '  ', '\n', '\n', '\t', '\n  ', ' \n', '\n\n', '   ']
 
@@ -90,6 +94,40 @@ class Rendered(object):
     def text(self):
         return ''.join(c[0] + c[2].text for c in self.cells) + self.tail[0]
 
+    def risks(self):
+        """Names of the open findings whose input class this text contains: redundant
+        parentheses tagged 'paren:<name>', or inserted layout (other than a bare
+        comment) before a token tagged '<name>'."""
+        out = set()
+        for lead, lead_nc, tok, si in self.cells:
+            if tok.risk.startswith('paren:'):
+                out.add(tok.risk[6:])
+            elif tok.risk and lead_nc != tok.pre:
+                out.add(tok.risk)
+        return sorted(out)
+
+    def without(self, names):
+        """The same rendering minus the layout that makes the input class of the named
+        findings: tagged parentheses dropped, layout before tagged tokens reset."""
+        r = Rendered()
+        r.tail = self.tail
+        r.stats = dict(self.stats)
+        carry = None
+        for lead, lead_nc, tok, si in self.cells:
+            if tok.risk.startswith('paren:') and tok.risk[6:] in names:
+                if tok.text == '(':
+                    # what stood before the parenthesis now stands before its content
+                    carry = (lead, lead_nc) if carry is None else \
+                        (carry[0] + lead, carry[1] + lead_nc)
+                continue
+            if carry is not None:
+                lead, lead_nc = carry[0] + lead, carry[1] + lead_nc
+                carry = None
+            if tok.risk in names:
+                lead, lead_nc = tok.pre, tok.pre
+            r.cells.append([lead, lead_nc, tok, si])
+        return r
+
     @property
     def text_nocomment(self):
         return ''.join(c[1] + c[2].text for c in self.cells) + self.tail[1]
@@ -136,31 +174,36 @@ def flatten(items, rng, p_paren, stats, out):
         if kind == 'N':              # bare operator expression: transparent
             flatten(sub, rng, p_paren, stats, out)
             continue
+        risk = ''
         if p_paren and rng is not None and rng.random() < p_paren:
-            if kind == 'E0den' and AVOID_DEN_PAREN:
+            if kind == 'E0den' and EXCLUDE_DEN_PAREN:
                 stats['excluded_den_paren'] += 1
-            elif kind == 'E0agg':
-                pass                 # counted by the generator (D13)
+            elif kind == 'E0agg' and syntaxgen.EXCLUDE_BODYLESS_AGG_LAYOUT:
+                pass                 # counted by the generator
             else:
                 wrap = True
+                risk = {'E0den': RISK_DEN, 'E0agg': RISK_AGG}.get(kind, '')
         if not wrap:
             flatten(sub, rng, p_paren, stats, out)
             continue
         stats['paren_' + ('expr' if kind[0] == 'E' else 'prop')] += 1
         inner = []
         flatten(sub, rng, p_paren, stats, inner)
-        inner = _wrap(inner)
+        inner = _wrap(inner, risk)
         if rng.random() < 0.15:
             stats['paren_double'] += 1
-            inner = _wrap(inner)
+            inner = _wrap(inner, risk)
         out.extend(inner)
 
 
-def _wrap(inner):
+def _wrap(inner, risk=''):
+    """Parentheses around a token list.  `risk`: these parentheses are the input class
+    of an open finding (only produced with its exclusion switched off); they are tagged
+    so that Rendered.without(risk) can leave them out again."""
     first = inner[0]
-    return ([Tok('(', 'open', first.pre, first.glue, first.reg),
+    return ([Tok('(', 'open', first.pre, first.glue, first.reg, 'paren:' + risk if risk else ''),
              first.copy(pre='', glue=False)] + inner[1:] +
-            [Tok(')', 'close', '', False, inner[-1].reg)])
+            [Tok(')', 'close', '', False, inner[-1].reg, 'paren:' + risk if risk else '')])
 
 
 def render(stmts, rng=None, p_noise=0.0, p_paren=0.0, trailing=True, sep_layout='\n'):
@@ -198,18 +241,33 @@ STRAYS = ['~', '|', ',', ';', ':-', '=', ')', '(', '"', "'", '`', '..', '?', ':'
 OP_REPL = ['+', '==', '<', '=', '|', '~', '->', ':', '&&', ' in ', '-']
 AGGOP_REPL = ['=', '+=', 'Max=', '==', '|=', ':=', '?=']
 
-# Known divergences of the two parsers (DESIGN.md section 3), excluded by construction
-# while they are open findings; the exclusions are counted:
-#  D9   an aggregating operator spelled `|=` (Python's SplitRaw refuses any separator
-#       next to a '|', the C++ one only for the separator '|')
-#  D10  a named / `..rest` argument inside order_by(...) / limit(...)  (Python's
-#       AnnotationsFromDenotations.ShiftArgs adds 1 to a str)
-#  D17  a '..' literal left unclosed right after an escaped quote, `'a\\'` at the end of
-#       the text: Python's ParseString lets SyntaxError escape from ast.literal_eval,
-#       the C++ parser accepts the literal with the content `a\\`
-AVOID_D9 = True
-AVOID_D10 = True
-AVOID_D17 = True
+# FINDINGS of C06 reached through the corruption catalogue, excluded by construction
+# while they are open (counted; VERIF_SYNTAX_EXCLUDE_<NAME>=0 switches one off):
+#  PIPE_EQ      pipe_eq_operator: an aggregating operator replaced by `|=` is accepted by
+#               the C++ parser (operator `|`) and rejected by the Python parser (its
+#               SplitRaw refuses any separator next to a '|', the C++ one only the
+#               separator '|' itself)
+#  DEN_NAMED    denotation_named_argument: a named / `..rest` argument inside
+#               order_by(..) / limit(..): Python's AnnotationsFromDenotations.ShiftArgs
+#               adds 1 to a str (TypeError escapes), the C++ parser accepts
+#  QUOTE_PY     quote_literal_not_python: a '..' literal that is not a valid Python
+#               literal (left unclosed right after an escaped quote, `'a\\'`, or one that
+#               swallows a line break after its closing quote was deleted): Python's
+#               ParseString lets SyntaxError escape from ast.literal_eval, the C++
+#               parser accepts the literal
+#  EMPTY_ARRAYSUB  cpp_empty_array_subscript: `l[]` (the only index of `l[i]` deleted) is
+#               rejected by the Python parser (NestedElement yields None) and accepted
+#               by the C++ parser, which dereferences an empty optional and emits
+#               {"call": null}
+#  EMPTY_BODY  combine_empty_body: `Sum{y :- }`, `(combine Sum= y :- )`, `x Sum= (y :- )`
+#               (a stray `:-` before the closing bracket): the Python parser takes the
+#               empty body for "no body" and accepts, the C++ parser rejects
+#               ("Could not parse proposition.")
+EXCLUDE_PIPE_EQ = syntaxgen.excluded('PIPE_EQ')
+EXCLUDE_EMPTY_BODY = syntaxgen.excluded('EMPTY_BODY')
+EXCLUDE_EMPTY_ARRAYSUB = syntaxgen.excluded('EMPTY_ARRAYSUB')
+EXCLUDE_DEN_NAMED = syntaxgen.excluded('DEN_NAMED')
+EXCLUDE_QUOTE_PY = syntaxgen.excluded('QUOTE_PY')
 
 
 def candidates(cells):
@@ -240,6 +298,8 @@ def candidates(cells):
             out.append(('unopen_str', i, None))
         if k in ('var', 'field') and t.text[0].isalpha() and t.text[0] != '`':
             out.append(('cap_var', i, None))
+        if k in ('var', 'num', 'lit', 'str'):
+            out.append(('del_atom', i, None))
         if k == 'name' and t.text[0].isalpha():
             out.append(('lower_pred', i, None))
         if k == 'den' and t.text == 'distinct':
@@ -268,16 +328,116 @@ def excluded_class(cells, c):
     """Name of the known-divergence class this corruption falls in, or None."""
     kind, i, arg = c
     t = cells[i][2]
-    if AVOID_D9 and kind == 'repl_aggop' and arg == '|=':
-        return 'D9_pipe_eq_operator'
-    if AVOID_D17 and kind == 'unclose_str' and t.text[0] == "'" and \
-            t.text.endswith("\\''"):
-        return 'D17_unclosed_quote_after_backslash'
-    if AVOID_D10 and t.reg == 'den':
+    if EXCLUDE_PIPE_EQ and kind == 'repl_aggop' and arg == '|=':
+        return 'finding:pipe_eq_operator'
+    if EXCLUDE_EMPTY_ARRAYSUB and kind == 'del_atom' and 0 < i < len(cells) - 1:
+        before, after = cells[i - 1][2], cells[i + 1][2]
+        if before.text == '[' and before.glue and after.text == ']':
+            return 'finding:cpp_empty_array_subscript'
+    if EXCLUDE_DEN_NAMED and t.reg == 'den':
         if (kind == 'ins_stray' and arg in (':', '..')) or \
                 (kind == 'repl_op' and arg == ':'):
-            return 'D10_named_denotation_argument'
+            return 'finding:denotation_named_argument'
     return None
+
+
+def quote_regions(text):
+    """The '..' regions of a text as the scanner shared by both parsers (Traverse) sees
+    them: list of (substring from an opening ' outside any other literal / comment
+    to its closing ' or to the end of the text, closed?).  Kept deliberately simple: it only
+    decides which generated inputs belong to the class of finding
+    quote_literal_not_python, never a verdict."""
+    out = []
+    i, n = 0, len(text)
+    while i < n:
+        c = text[i]
+        if c == '#':
+            j = text.find('\n', i)
+            i = n if j < 0 else j + 1
+        elif text.startswith('/*', i):
+            j = text.find('*/', i + 2)
+            i = n if j < 0 else j + 2
+        elif text.startswith('"""', i):
+            j = text.find('"""', i + 3)
+            i = n if j < 0 else j + 3
+        elif c == '"' or c == '`':
+            j = i + 1
+            while j < n and text[j] != c and not (c == '"' and text[j] == '\n'):
+                j += 1
+            i = j + 1
+        elif c == "'":
+            j = i + 1
+            while j < n and text[j] != "'":
+                j += 2 if text[j] == '\\' else 1
+            out.append((text[i:j + 1], j < n))
+            i = j + 1
+        else:
+            i += 1
+    return out
+
+
+def code_only(text):
+    """text with comments deleted and every literal / backticked name replaced by `S`
+    (same simple scanner as quote_regions; used for input-class tests only)."""
+    out = []
+    i, n = 0, len(text)
+    while i < n:
+        c = text[i]
+        if c == '#':
+            j = text.find('\n', i)
+            i = n if j < 0 else j
+        elif text.startswith('/*', i):
+            j = text.find('*/', i + 2)
+            i = n if j < 0 else j + 2
+        elif text.startswith('"""', i):
+            j = text.find('"""', i + 3)
+            i = n if j < 0 else j + 3
+            out.append('S')
+        elif c == '"' or c == '`':
+            j = text.find(c, i + 1)
+            i = n if j < 0 else j + 1
+            out.append('S')
+        elif c == "'":
+            j = i + 1
+            while j < n and text[j] != "'":
+                j += 2 if text[j] == '\\' else 1
+            i = j + 1
+            out.append('S')
+        else:
+            out.append(c)
+            i += 1
+    return ''.join(out)
+
+
+def combine_empty_body(text):
+    """Input class of finding combine_empty_body: a `:-` directly before a closing
+    bracket."""
+    import re
+    return re.search(r':-\s*[)}\]]', code_only(text)) is not None
+
+
+def quote_literal_not_python(text):
+    """Input class of finding quote_literal_not_python: the text has a '..' region that
+    Python's literal_eval refuses (line break inside, lone backslash before the closing
+    quote, unclosed, malformed \\x \\u \\U \\N)."""
+    import ast
+    import warnings
+    for q, closed in quote_regions(text):
+        if not closed:
+            # the scanner never leaves the literal: both parsers reject, unless the
+            # text ends with the escaped quote and reads as a complete literal
+            q = q.rstrip()
+            if not (len(q) >= 3 and q.endswith("\\'")):
+                continue
+        try:
+            with warnings.catch_warnings():
+                warnings.simplefilter('ignore')
+                v = ast.literal_eval(q)
+            if not isinstance(v, str):
+                return True
+        except (SyntaxError, ValueError):
+            return True
+    return False
 
 
 def apply_corruption_cells(r, c):
@@ -287,7 +447,8 @@ def apply_corruption_cells(r, c):
     for j, (lead, lead_nc, t, si) in enumerate(r.cells):
         text = t.text
         if j == i:
-            if kind in ('del_bracket', 'del_sep', 'del_op', 'del_kw', 'del_distinct'):
+            if kind in ('del_bracket', 'del_sep', 'del_op', 'del_kw', 'del_distinct',
+                        'del_atom'):
                 text = ' ' if kind in ('del_kw', 'del_op') and t.text != t.text.strip() \
                     else ''
             elif kind in ('dup_bracket', 'dup_sep'):
@@ -313,3 +474,13 @@ def apply_corruption_cells(r, c):
 
 def apply_corruption(r, c):
     return ''.join(apply_corruption_cells(r, c)) + r.tail[0]
+
+
+def excluded_text(text):
+    """Name of the open finding whose input class a CORRUPTED text belongs to (classes
+    that are recognised on the text rather than on the corruption), or None."""
+    if EXCLUDE_QUOTE_PY and quote_literal_not_python(text):
+        return 'finding:quote_literal_not_python'
+    if EXCLUDE_EMPTY_BODY and combine_empty_body(text):
+        return 'finding:combine_empty_body'
+    return None
